@@ -276,9 +276,19 @@ def end_to_end(run, driver, n):
         cal_res = sorted(float(v) for v in conf[f"residuals_{est}"])
         all_res = sorted(float(v) for v in rep[f"residuals_{est}"])
         train_res = list(all_res)
+        foreign = 0
         for v in cal_res:
             if v in train_res:
                 train_res.remove(v)
+            else:
+                foreign += 1
+        if foreign:
+            run.case(case, True)
+            run.violation("the calibration units of this call are not reporting units of this call (their relative changes are not among "
+                          "the reporting units'): the correction is calibrated on other data", input=case,
+                          impl={"calibration": len(cal_res), "not among the reporting units": foreign},
+                          predicate="pop_calibrated (held-out calibration units)", signature="C04:calibration-set", election=e.to_json())
+            continue
         for taus, rows, ys in fits:
             if taus == 0.5:
                 continue
@@ -394,8 +404,8 @@ def coverage_stream(run, n_elections, n_units=300):
     quarter of the units collapse to 25-45 percent of their baseline), a random half reporting, run through the client with the
     turnout-factor limits switched off (lower 0, upper 10) so that no reporting unit is removed by its outcome.  Pooled over the
     elections, the share of not-yet-reporting units whose true count lies inside the reported interval must not fall short of the
-    level.  This is a statistical observation with a wide margin (alarm below alpha - 0.08 on >= 2000 units, > 5 standard deviations
-    of the pooled share for the sizes used); it supports the search for a failing input and stands in for no theorem."""
+    level.  This is a statistical observation with a wide margin (alarm below alpha - 0.10 on >= 2000 units; over 12 seeds the pooled share
+    of 24 elections had mean 0.735 / 0.900 and standard deviation 0.021 / 0.016 at alpha 0.7 / 0.9, 40 elections are used: > 7 standard deviations); it supports the search for a failing input and stands in for no theorem."""
     rng = run.rng
     alphas = [0.7, 0.9]
     inside = {a: 0 for a in alphas}
@@ -423,13 +433,24 @@ def coverage_stream(run, n_elections, n_units=300):
         e.pre, e.cur = pd.DataFrame(rows), pd.DataFrame(feed)
         e.roles = {r["geographic_unit_fips"]: ("reporting" if reporting[i] else "zero-percent") for i, r in enumerate(rows)}
         res = E.run_client(e, estimands=["turnout"], alphas=alphas, pi_method="nonparametric", features=[], aggregates=["postal_code", "unit"],
-                           params={"turnout_factor_lower": 0, "turnout_factor_upper": 10})
+                           # no unit is removed by its outcome: limits off, the turnout outlier model off (the margin outlier switch, which
+                           # has nothing to act on in a turnout run, is left at its default in half of the elections)
+                           params={"turnout_factor_lower": 0, "turnout_factor_upper": 10, "fit_turnout_outlier_model": False,
+                                   "fit_margin_outlier_model": k % 2 == 0})
         run.count("coverage elections")
         if "raises" in res:
             run.violation("exchangeable election through the client failed: " + res["raises"], input={"coverage_seed": seed},
                           impl=res.get("msg"), predicate="covered_count_ge", signature="C04:coverage-raise")
             return
         ud = res["tables"]["unit_data"]
+        removed = [r["geographic_unit_fips"] for r in ud.to_dict(orient="records")
+                   if reporting[int(r["geographic_unit_fips"][1:])] and r["unit_category"] != "expected"]
+        if removed:
+            run.violation("limits off, turnout outlier model off: reporting units were nevertheless removed from the fit / calibration set by "
+                          "their outcome, so the calibration units are no longer exchangeable with the not-yet-reporting ones",
+                          input={"coverage_seed": seed, "margin_outlier_switch": k % 2 == 0}, impl={"removed": len(removed), "first": removed[:3]},
+                          predicate="covered_count_ge (exchangeable calibration units)", signature="C04:calibration-population")
+            return
         for r in ud.to_dict(orient="records"):
             u = r["geographic_unit_fips"]
             if reporting[int(u[1:])]:
@@ -445,10 +466,10 @@ def coverage_stream(run, n_elections, n_units=300):
     run.info["pooled_coverage_units"] = total
     if total >= 2000:
         for a in alphas:
-            if cov[a] < a - 0.08:
+            if cov[a] < a - 0.10:
                 run.violation("exchangeable units of equal size, turnout-factor limits off: the pooled share of not-yet-reporting units whose "
                               "true count lies inside the reported interval is far below the level", input=dict(case, alpha=a),
-                              impl={"coverage": round(cov[a], 4), "units": total}, expected=f">= {a} (alarm below {a - 0.08:.2f})",
+                              impl={"coverage": round(cov[a], 4), "units": total}, expected=f">= {a} (alarm below {a - 0.10:.2f})",
                               predicate="covered_count_ge / equal_weights_rank (observed)", signature="C04:coverage")
                 return
     run.traces += 1
@@ -465,7 +486,7 @@ def explore(run, driver, budget):
     leave_one_out(run, driver, n[2])
     api_levels(run, {"quick": 4, "thorough": 150, "search": 20}[budget])
     end_to_end(run, driver, n[1])
-    coverage_stream(run, {"quick": 24, "thorough": 120, "search": 40}[budget])
+    coverage_stream(run, {"quick": 40, "thorough": 160, "search": 60}[budget])
 
 
 def replay(run, driver, payload):
